@@ -1,2 +1,4 @@
+import IPT.Thm.C07
+import IPT.Thm.C08
 import IPT.Thm.C14
 import IPT.Thm.C17
